@@ -607,6 +607,7 @@ func main() {
 	})
 	emitConsts(filepath.Join(*out, "Consts.lean"), pkgs)
 	emitFacts(filepath.Join(*out, "Facts.lean"), pkgs)
+	emitExprs(filepath.Join(*out, "Expr.lean"), pkgs)
 	fmt.Printf("xlate: %d lock units, %d locks, %d handler units\n", countUnits(tl, false), len(tl.locks), countUnits(te, true))
 }
 
@@ -656,6 +657,110 @@ func emitFacts(path string, pkgs []*packages.Package) {
 		fmt.Fprintf(&w, "def %s : Bool := %v\n", k, found[k])
 	}
 	fmt.Fprintf(&w, "end Gen.Facts\n")
+	if err := os.WriteFile(path, []byte(w.String()), 0o644); err != nil {
+		panic(err)
+	}
+}
+
+// ---- designated integer expressions: Go uint16 arithmetic -> BitVec 16 ----
+
+type exprCtx struct {
+	p    *packages.Package
+	intn string // Lean text of the argument passed to Rand.Intn, captured while translating
+}
+
+// bv translates an expression of Go type uint16 into a Lean `BitVec 16` term over `min max : BitVec 16`, `k : Nat`
+func (c *exprCtx) bv(e ast.Expr) string {
+	switch x := e.(type) {
+	case *ast.ParenExpr:
+		return c.bv(x.X)
+	case *ast.SelectorExpr:
+		switch types.ExprString(x) {
+		case "r.MinPort":
+			return "min"
+		case "r.MaxPort":
+			return "max"
+		}
+	case *ast.BasicLit:
+		return x.Value + "#16"
+	case *ast.BinaryExpr:
+		if t := c.p.TypesInfo.TypeOf(x); t == nil || t.String() != "uint16" {
+			panic("port expression: operand is not uint16: " + types.ExprString(x))
+		}
+		switch x.Op {
+		case token.ADD:
+			return "(" + c.bv(x.X) + " + " + c.bv(x.Y) + ")"
+		case token.SUB:
+			return "(" + c.bv(x.X) + " - " + c.bv(x.Y) + ")"
+		}
+	case *ast.CallExpr:
+		if types.ExprString(x.Fun) == "uint16" && len(x.Args) == 1 {
+			if call, ok := x.Args[0].(*ast.CallExpr); ok && types.ExprString(call.Fun) == "r.Rand.Intn" && len(call.Args) == 1 {
+				c.intn = c.nat(call.Args[0])
+				return "(BitVec.ofNat 16 k)"
+			}
+		}
+	}
+	panic("port expression: unsupported uint16 expression " + types.ExprString(e))
+}
+
+// nat translates an expression of Go type int
+func (c *exprCtx) nat(e ast.Expr) string {
+	switch x := e.(type) {
+	case *ast.ParenExpr:
+		return c.nat(x.X)
+	case *ast.CallExpr:
+		if types.ExprString(x.Fun) == "int" && len(x.Args) == 1 {
+			return "(" + c.bv(x.Args[0]) + ").toNat"
+		}
+	}
+	panic("port expression: unsupported int expression " + types.ExprString(e))
+}
+
+func emitExprs(path string, pkgs []*packages.Package) {
+	var w strings.Builder
+	fmt.Fprintf(&w, "-- GENERATED by /verif/xlate from /repo's working tree. Do not edit.\nnamespace Gen.Expr\n")
+	for _, p := range pkgs {
+		if p.Name != "turn" {
+			continue
+		}
+		for _, f := range p.Syntax {
+			for _, d := range f.Decls {
+				fd, ok := d.(*ast.FuncDecl)
+				if !ok || fd.Body == nil || fd.Recv == nil || !strings.Contains(types.ExprString(fd.Recv.List[0].Type), "RelayAddressGeneratorPortRange") {
+					continue
+				}
+				if fd.Name.Name != "AllocatePacketConn" && fd.Name.Name != "AllocateListener" {
+					continue
+				}
+				n := 0
+				ast.Inspect(fd.Body, func(nd ast.Node) bool {
+					as, ok := nd.(*ast.AssignStmt)
+					if !ok || len(as.Lhs) != 1 || types.ExprString(as.Lhs[0]) != "port" || len(as.Rhs) != 1 {
+						return true
+					}
+					if !strings.Contains(types.ExprString(as.Rhs[0]), "Intn") {
+						return true
+					}
+					c := &exprCtx{p: p}
+					var body string
+					if t := p.TypesInfo.TypeOf(as.Rhs[0]); t != nil && t.String() == "int" {
+						body = c.nat(as.Rhs[0]) // AllocateListener: int(uint16 expr)
+					} else {
+						body = "(" + c.bv(as.Rhs[0]) + ").toNat"
+					}
+					n++
+					fmt.Fprintf(&w, "/-- %s: `%s` -/\ndef port_%s (min max : BitVec 16) (k : Nat) : Nat := %s\n", fd.Name.Name, types.ExprString(as.Rhs[0]), fd.Name.Name, body)
+					fmt.Fprintf(&w, "def intn_%s (min max : BitVec 16) : Nat := %s\n", fd.Name.Name, c.intn)
+					return true
+				})
+				if n != 1 {
+					panic(fmt.Sprintf("port expression: expected exactly one `port := … Intn …` in %s, found %d", fd.Name.Name, n))
+				}
+			}
+		}
+	}
+	fmt.Fprintf(&w, "end Gen.Expr\n")
 	if err := os.WriteFile(path, []byte(w.String()), 0o644); err != nil {
 		panic(err)
 	}
